@@ -276,7 +276,9 @@ def _from_timestamp_tabulate(ctx, m, fn) -> bool | None:
                 def localfrom(t, tz=None):
                     # the process's local zone is not UTC in general: a reading in local time shows as a +05:45 shift here
                     return _dt.datetime.fromtimestamp(t, tz=tz) if tz is not None else utcfrom(t) + _dt.timedelta(hours=5, minutes=45)
-                glob = {"_datetime": minieval.Stub(datetime=minieval.Stub(utcfromtimestamp=utcfrom, fromtimestamp=localfrom), timezone=_dt.timezone, timedelta=_dt.timedelta), "UTC": UTCm,
+                glob = {"_datetime": minieval.Stub(datetime=minieval.ClassStub(_new=_dt.datetime, _isa=lambda v: isinstance(v, _dt.datetime), utcfromtimestamp=utcfrom, fromtimestamp=localfrom,
+                                                                                min=_dt.datetime.min, max=_dt.datetime.max),
+                                                   timezone=_dt.timezone, timedelta=_dt.timedelta, date=_dt.date, time=_dt.time, tzinfo=_dt.tzinfo), "UTC": UTCm,
                         "DateTime": minieval.ClassStub(_new=None, _isa=lambda v: False, create=create), "_safe_timezone": lambda z, **k: z}
                 n += 1
                 got = minieval.call(fn, [ts, tz], {}, {**funcs, "$globals": glob})
@@ -385,9 +387,55 @@ def _add_utc_frame(ctx) -> None:
         ctx.unverified("OFFSET.add-utc-frame", "DateTime.add/tzinfo=UTC", "no tzinfo=UTC intermediate found", m.loc(fn))
 
 
+def _int_timestamp_tabulate(ctx, m, fn) -> bool | None:
+    """UNITS.int_timestamp (tabulated): the property body is evaluated by the checker's interpreter on aware instances (fixed offsets of both
+    signs, sub-hour offsets, either fold, both sides of 1970, year 1 and year 9999); the class being constructed and `_EPOCH` are the standard
+    library's values as the analysed class body writes them.  Expected: the whole seconds from 1970-01-01T00:00Z to the instant, rounded
+    toward minus infinity (exact integer arithmetic on timedeltas)."""
+    import datetime as _dt
+    from ..rules import minieval
+    from ..rules.minieval import ClassStub, Obj, Stub
+    tzs = [_dt.timezone.utc, _dt.timezone(_dt.timedelta(hours=2)), _dt.timezone(_dt.timedelta(hours=-9, minutes=-30)), _dt.timezone(_dt.timedelta(hours=5, minutes=45)),
+           _dt.timezone(_dt.timedelta(hours=14))]
+    walls = [(1970, 1, 1, 0, 0, 0, 0), (1969, 12, 31, 23, 59, 59, 999999), (1969, 7, 20, 20, 17, 40, 1), (2021, 3, 7, 12, 30, 15, 250), (2038, 1, 19, 3, 14, 8, 0),
+             (1, 1, 2, 0, 0, 0, 0), (9999, 12, 30, 23, 59, 59, 999999), (2000, 2, 29, 23, 59, 59, 500000), (1900, 1, 1, 0, 0, 0, 7)]
+    glob = {"$globals": {**minieval.module_consts(m), **{st.name: st for st in m.top() if isinstance(st, ast.FunctionDef)}, "UTC": _dt.timezone.utc,
+                         "datetime": Stub(datetime=_dt.datetime, date=_dt.date, timezone=_dt.timezone, timedelta=_dt.timedelta, tzinfo=_dt.tzinfo)}}
+    bad, n = [], 0
+    try:
+        ep_expr = m.assign("_EPOCH", "DateTime")
+        epoch = minieval.ev(ep_expr, {}, glob)
+        if not isinstance(epoch, _dt.datetime):
+            raise core.Unsupported("_EPOCH is not a standard-library datetime in the analysed class body")
+        for w in walls:
+            for tz in tzs:
+                for fold in (0, 1):
+                    b = _dt.datetime(*w, tzinfo=tz, fold=fold)
+                    me = Obj(_methods=m.methods("DateTime"), _props={k for k, f in m.methods("DateTime").items() if any(core.dotted(d) == "property" for d in f.decorator_list)} - {"int_timestamp"},
+                             _natives={"utcoffset": b.utcoffset, "timestamp": b.timestamp, "astimezone": b.astimezone, "replace": b.replace, "toordinal": b.toordinal},
+                             _ctor=ClassStub(_new=_dt.datetime, _isa=lambda v: isinstance(v, _dt.datetime)), _EPOCH=epoch, EPOCH=epoch,
+                             tzinfo=tz, tz=tz, timezone=tz, **{k: getattr(b, k) for k in ("year", "month", "day", "hour", "minute", "second", "microsecond", "fold")})
+                    me._sub_native = b
+                    got = minieval.call(fn, [me], {}, glob)
+                    want = (b - _dt.datetime(1970, 1, 1, tzinfo=_dt.timezone.utc)) // _dt.timedelta(seconds=1)
+                    n += 1
+                    if not (isinstance(got, int) and not isinstance(got, bool) and got == want):
+                        bad.append(f"{b.isoformat()} (fold={fold}).int_timestamp -> {got!r} (whole seconds since 1970-01-01T00:00Z: {want})")
+    except (core.Unsupported, core.AnchorMissing, KeyError, TypeError, AttributeError, IndexError, ValueError, OverflowError, RecursionError, minieval.Raised) as e:
+        ctx.unverified("UNITS.int_timestamp", "DateTime.int_timestamp/tabulated", f"outside the checker's interpreter: {type(e).__name__}: {str(e)[:160]}", m.loc(fn))
+        return None
+    ctx.ob("UNITS.int_timestamp", "DateTime.int_timestamp/tabulated", not bad, f"{n} instances: " + (f"wrong: {bad[:3]}" if bad else
+           "the whole seconds between 1970-01-01T00:00Z and the instant"), m.loc(fn))
+    if not bad:
+        ctx.established(("UNITS.int_timestamp",), "DateTime.int_timestamp/", "UNITS.int_timestamp (tabulated)")
+        ctx.established(("UNITS.int_timestamp",), "DateTime._EPOCH", "UNITS.int_timestamp (tabulated)")
+    return not bad
+
+
 def _int_timestamp(ctx) -> None:
     m = pmod("datetime")
     fn = m.func("DateTime.int_timestamp")
+    _int_timestamp_tabulate(ctx, m, fn)
     rets = core.returns(fn)
     if len(rets) != 1:
         ctx.unverified("UNITS.int_timestamp", "DateTime.int_timestamp", "multiple returns", m.loc(fn))
